@@ -275,6 +275,78 @@ pub fn run(report: &Report, thorough: bool) -> Evidence {
         },
         |_| (),
     );
+    // ---- dictionary sweep: LONG real compositions. Every word of dictionary.json (quick: every eighth) is typed key by key through
+    // the bundled Probhat layout (really typed from the idle state, no hook) under all 16 settings; every step is compared with
+    // the reference step applied to the text before it. Reaches compositions of 20 and more code points with three and more
+    // conjuncts, which the closed graph (4-5 code points) cannot.
+    let dict_steps = AtomicU64::new(0);
+    let dict_words = AtomicU64::new(0);
+    let dict_longest = AtomicU64::new(0);
+    if crate::par::part_enabled("dict") {
+        let dict = crate::data::Dict::load(&crate::drv::real_db());
+        let inv = crate::data::InverseLayout::load(&crate::drv::probhat());
+        let stride = if thorough { 1 } else { 8 };
+        let mut words: Vec<&String> = dict.words().collect();
+        words.sort();
+        words.dedup();
+        let words: Vec<&String> = words.into_iter().step_by(stride).collect();
+        par_for(
+            16 * 8,
+            1,
+            |w| scratch_xdg(&format!("c12d-{}", w)),
+            |xdg, idx| {
+                let setting = idx % 16;
+                let part = idx / 16;
+                let mut o = Opts::fixed(&crate::drv::probhat(), "", xdg);
+                o.vowel = setting & 1 != 0;
+                o.chandra = setting & 2 != 0;
+                o.kar = setting & 4 != 0;
+                o.reph = setting & 8 != 0;
+                o.smart = false;
+                let mut ctx = Ctx::new(&o).expect("context");
+                ctx.with_pre = false;
+                for w in words.iter().skip(part).step_by(8) {
+                    let Some(evs) = inv.events(w) else { continue };
+                    let _ = ctx.apply(&Ev::Finish);
+                    dict_words.fetch_add(1, Ordering::Relaxed);
+                    dict_longest.fetch_max(evs.len() as u64, Ordering::Relaxed);
+                    let mut prev = String::new();
+                    for (i, (e, c)) in evs.iter().zip(w.chars()).enumerate() {
+                        let got = match ctx.apply(e) {
+                            Ok(Out::Sugg(r)) => r.text(),
+                            other => {
+                                report.add(Violation::new("C12", "panic", "panic:dictionary-sweep").opts(&ctx.opts).events(&evs[..=i]).detail(format!("{:?} while typing {:?}", other, w)));
+                                break;
+                            }
+                        };
+                        dict_steps.fetch_add(1, Ordering::Relaxed);
+                        match fixed_step_ref(&prev, &c.to_string(), &ctx.opts) {
+                            RefOut::Text(exp) => {
+                                if got != exp {
+                                    report.add(
+                                        Violation::new("C12", "ref-step-mismatch", &format!("dictionary-sweep:{}:after-{}", crate::bn::esc(&c.to_string()), prev.chars().last().map(|c| crate::bn::esc(&c.to_string())).unwrap_or("start".into())))
+                                            .opts(&ctx.opts)
+                                            .feat("pre", crate::bn::esc(&prev))
+                                            .events(&evs[..=i])
+                                            .detail(format!("typing the dictionary word {:?}: composition {:?} + key value {:?} gave {:?}, rule chain says {:?}", w, prev, c, got, exp)),
+                                    );
+                                }
+                            }
+                            RefOut::Unspecified(_) => {
+                                if got == prev {
+                                    report.add(Violation::new("C12", "key-swallowed", "key-swallowed:dictionary-sweep").opts(&ctx.opts).feat("pre", crate::bn::esc(&prev)).events(&evs[..=i]).detail(format!("typing {:?}: composition {:?} + key value {:?}: nothing happened", w, prev, c)));
+                                }
+                            }
+                            RefOut::RephConservation => {}
+                        }
+                        prev = got;
+                    }
+                }
+            },
+            |_| (),
+        );
+        validated.fetch_add(dict_steps.load(Ordering::Relaxed), Ordering::Relaxed);
+    }
     let st = total.lock().unwrap().clone();
     let mut ev = Evidence::new("C12", &report.tier, "model_checking");
     ev.set("states", st.states);
@@ -287,6 +359,7 @@ pub fn run(report: &Report, thorough: bool) -> Evidence {
     ev.set("settings", 16);
     ev.set("alphabet", json!(ALPHABET.iter().zip(values.iter()).map(|((c, a), v)| format!("{}{} -> {}", c, if *a { "+AltGr" } else { "" }, crate::bn::esc(v))).collect::<Vec<_>>()));
     ev.set("class_sweep_transitions", sweep.load(Ordering::Relaxed));
+    ev.set("dictionary_sweep", json!({"words_typed": dict_words.load(Ordering::Relaxed), "key_steps_compared": dict_steps.load(Ordering::Relaxed), "longest_word_code_points": dict_longest.load(Ordering::Relaxed), "settings": 16, "layout": "Probhat"}));
     ev.set("unspecified_transitions", unspecified.load(Ordering::Relaxed));
     ev.set("reph_outside_grammar_conservation_only", reph_conservation_only.load(Ordering::Relaxed));
     ev.set("rule_hits", json!(*rule_hits.lock().unwrap()));
